@@ -84,7 +84,7 @@ def r_total(c):
                     "a return of the lowering rule is not an IndexLambda(...) construction")
     # to_index_lambda applies the rule of the node itself, not of its children
     rec = m.func("pytato.transform.lower_to_index_lambda.ToIndexLambdaMapper.rec")
-    c.check(any(isinstance(r, ast.Return) and ast.unparse(r.value) == "expr"
+    c.check(any(isinstance(r, ast.Return) and ast.unparse(r.value) == rec.args.args[1].arg
                 for r in ast.walk(rec)), "R02-TOTAL", "ToIndexLambdaMapper.rec",
             "children-left-as-is", m.loc(m.module_of(rec), rec),
             "to_index_lambda no longer leaves the operands of the lowered node unchanged")
@@ -229,10 +229,19 @@ def r_sibling(c):
         for iff in ast.walk(fd):
             if isinstance(iff, ast.If) and isinstance(iff.test, ast.Call) \
                     and ast.unparse(iff.test.func) == "isinstance" \
-                    and ast.unparse(iff.test.args[0]) == "idx":
+                    and isinstance(iff.test.args[0], ast.Name) \
+                    and iff.test.args[0].id in _loop_targets(iff) \
+                    and ast.unparse(iff.test.args[1]) in ("INT_CLASSES", "NormalizedSlice"):
                 ty = ast.unparse(iff.test.args[1])
+                iv = iff.test.args[0].id
+                import copy
+                body = copy.deepcopy(iff.body)
+                for s_ in body:
+                    for nm in ast.walk(s_):
+                        if isinstance(nm, ast.Name) and nm.id == iv:
+                            nm.id = "<idx>"
                 arms.setdefault(ty, {})[mn] = (
-                    "\n".join(ast.unparse(s_) for s_ in iff.body), iff)
+                    "\n".join(ast.unparse(s_) for s_ in body), iff)
     for ty in ("INT_CLASSES", "NormalizedSlice"):
         impl = arms.get(ty, {})
         if len(impl) < 3:
@@ -246,6 +255,16 @@ def r_sibling(c):
                     f"the three index-lowering rules are sibling implementations, but "
                     f"{mn} handles {ty} indices differently from {ref_name} "
                     f"(`{body[:60]}...` vs `{ref[:60]}...`)")
+
+
+def _loop_targets(iff):
+    """names bound by the for loop whose body the if/elif chain of ``iff`` is in"""
+    ch, p = iff, iff._parent
+    while isinstance(p, ast.If) and p.orelse == [ch]:
+        ch, p = p, p._parent
+    if isinstance(p, ast.For):
+        return {n.id for n in ast.walk(p.target) if isinstance(n, ast.Name)}
+    return set()
 
 
 def r_domain(c):
